@@ -308,8 +308,7 @@ def worldOp1 (st : Option World) (op : String) (args tr : List String) : Option 
     | none => (some w, "bad-op")
   | "radput", [b], some w => (some { w with radputOk := b = "1" }, "ok")
   | "udplisten", [], some w =>
-    let (w, o) := newrequest w
-    let (w, s) := tail { w with udpPending := some o }
+    let (w, s) := tail (udpLoopTop w)
     (some w, "ok" ++ s)
   | "udpnas", [ip], some w =>
     let octs := (ip.splitOn ".").filterMap (·.toNat?)
@@ -378,6 +377,8 @@ def opsOf (w : World) (op : String) (args tr : List String) : Option (List World
   | "pop", [k] => k.toNat?.map fun k => [.pop k]
   | "rmclient", [k] => k.toNat?.map fun k => [.rmclient k]
   | "radput", [b] => some [.radput (b = "1")]
+  | "udplisten", [] => some [.udplisten]
+  | "udpsend", [n, pkt] => (match n.toNat?, ofHex pkt with | some n, some pkt => some [orc, .udpsend n pkt] | _, _ => none)
   | _, _ => none
 
 /-- every op line is also executed through `World.step`, the function the whole-history theorem is about; the two ways
